@@ -12,7 +12,7 @@ CHECKS = {
          "Every fully parenthesised expression tree up to 4 (thorough 5) leaves over a literal ladder (integers, decimals, exponent forms, huge/tiny magnitudes and each percent literal next to its plain twin) and all five operators is evaluated by the real parser+evaluator and compared with an independent exact evaluator run on the generating tree; every operator sequence of length 1..4 (thorough 5) is also written without parentheses and compared with the tree the documented precedence table prescribes; exhaustive within the stated bound.",
          "num::BigRational is exact; sizes between the ladder rungs behave like the rungs; blank layout is C06's subject.", "3 C01"),
  "C02": ("exploration", E1 + ": all ordered pairs of a unit-spelling set x {+,-,to} vs dimension vectors of an independent unit table",
-         "Every ordered pair of ~450 (thorough ~1050) unit spellings (all units, prefixed, products/quotients, powered and prefixed-and-powered, spellings that cancel over the same or over different unit names, spellings that contribute/cancel/re-contribute a base) under + - and to, with non-zero and with zero-valued (written and computed) operands, spellings with one unit on both sides of the slash under different powers (m/m^2), computed operands (every a*b/c and a/b*c over ten quantities cast to, added to and subtracted from twelve targets, judged against the reference evaluation of the tree), three-operand chains over plain numbers, quantities in one unit and quantities in an incommensurable unit, a plain number cast twice, plus plain-number adoption in both operand orders: Ok iff the independent table gives equal base dimensions, with exact SI value and the cast result expressed in the target unit.",
+         "Every ordered pair of ~450 (thorough ~1050) unit spellings (all units, prefixed, products/quotients, powered and prefixed-and-powered, spellings that cancel over the same or over different unit names, spellings that contribute/cancel/re-contribute a base) under + - and to, with non-zero and with zero-valued (written and computed) operands, spellings with one unit on both sides of the slash under different powers (m/m^2), computed operands (every a*b/c and a/b*c over ten quantities cast to, added to and subtracted from twelve targets, judged against the reference evaluation of the tree), three-operand chains over plain numbers, quantities in one unit and quantities in an incommensurable unit, a plain number cast twice, every ordered pair of 14 spellings in which one unit name cancels against itself (with and without written powers) under + - and to, plus plain-number adoption in both operand orders: Ok iff the independent table gives equal base dimensions, with exact SI value and the cast result expressed in the target unit.",
          "Independent unit table (tables.rs); syntactically cancelling spellings (m/m), computed dimensionless operands and prefixed words the tool rejects are not judged.", "3 C02"),
  "C03": ("exploration", E1 + ": commensurable unit pairs, prefixes, powers, composites vs SI scales, plus table-free conversion laws on the real code",
          "All ordered pairs per commensurability class x magnitudes, every prefix spelling, powers -3..3, every prefix symbol crossed with every power -3..3 (as source, as target and prefix-to-prefix; thorough: on every non-offset unit of the table, powers to +-5, 12 magnitudes per pair), 2-4 factor composites, composites naming the same units on both sides with differently distributed powers and ratio units with a scale but no dimension (min/hr, ft/mi, l/m^3) against the table; round-trip, via-unit, unparenthesised cast chains and scaling laws evaluated on the real code only (no table).",
